@@ -13,7 +13,7 @@
   any supplier table) and EVERY schedule `sched : List Nat` — any poll order, including spurious
   polls of tasks that cannot progress and polls of ids that are no task.
 -/
-import MdProofs.Lemmas.Once
+import MdProofs.Lemmas.OnceInv
 namespace MdModel.Once
 open MdModel
 
@@ -33,5 +33,172 @@ theorem at_most_once (cfg : Cfg) (sched : List Nat) (k : Nat) :
 example :
     let cfg : Cfg := ⟨[[7], [7]], fun _ => ⟨2, .ok⟩⟩
     callCount 7 (exec cfg [0, 1, 1, 0, 1, 0, 1] (init cfg)).log = 1 := by decide
+
+/-! ## 2. "every requester of that module observes the same outcome, including a remembered
+      failure" -/
+
+theorem seen_mem_expected {cfg : Cfg} {s : State} (h : InvA cfg s) {t k : Nat} {r : Res}
+    (hm : Event.seen t k r ∈ s.log) : (k, r) ∈ (cfg.prog t).map (expected cfg) := by
+  rw [← h.results t]
+  exact List.mem_append_left _ (mem_seenBy.mpr hm)
+
+/-- **C12.2a** whatever a requester observes for key `k` is the outcome the supplier gave for `k`
+    (`ok`, `notFound` or `parseError` alike — failures are remembered, not retried). -/
+theorem remembered_outcome (cfg : Cfg) (sched : List Nat) (t k : Nat) (r : Res)
+    (hm : Event.seen t k r ∈ (exec cfg sched (init cfg)).log) : r = cfg.outcome k := by
+  obtain ⟨k', _, he⟩ := List.mem_map.mp (seen_mem_expected (invA_reach cfg sched) hm)
+  simp only [expected, Prod.mk.injEq] at he
+  rw [← he.2, he.1]
+
+/-- **C12.2** agreement: any two observations of the same key, by any tasks at any time, are
+    equal. -/
+theorem agreement (cfg : Cfg) (sched : List Nat) (t₁ t₂ k : Nat) (r₁ r₂ : Res)
+    (h₁ : Event.seen t₁ k r₁ ∈ (exec cfg sched (init cfg)).log)
+    (h₂ : Event.seen t₂ k r₂ ∈ (exec cfg sched (init cfg)).log) : r₁ = r₂ := by
+  rw [remembered_outcome cfg sched t₁ k r₁ h₁, remembered_outcome cfg sched t₂ k r₂ h₂]
+
+/-- non-vacuity: two tasks observe the remembered `parseError` of key 3 (one of them was blocked
+    on the lock while the other was inside the supplier call). -/
+example :
+    let cfg : Cfg := ⟨[[3], [3]], fun _ => ⟨1, .parseError⟩⟩
+    let s := exec cfg [0, 1, 0, 1] (init cfg)
+    Event.seen 0 3 .parseError ∈ s.log ∧ Event.seen 1 3 .parseError ∈ s.log := by decide
+
+/-! ## 3. results are a function of the programs and the supplier table only (used by C13) -/
+
+/-- **C12.6a** at every moment, what task `t` has seen is a prefix of
+    `(prog t).map (k ↦ (k, outcome k))` — no schedule can change an answer or its position. -/
+theorem results_prefix (cfg : Cfg) (sched : List Nat) (t : Nat) :
+    seenBy t (exec cfg sched (init cfg)).log <+: (cfg.prog t).map (expected cfg) :=
+  ⟨_, (invA_reach cfg sched).results t⟩
+
+/-- **C12.6b** once task `t` has finished it has seen exactly that list: no request is lost. -/
+theorem results_final (cfg : Cfg) (sched : List Nat) (t : Nat)
+    (hfin : isFin (exec cfg sched (init cfg)) t = true) :
+    seenBy t (exec cfg sched (init cfg)).log = (cfg.prog t).map (expected cfg) := by
+  have h := (invA_reach cfg sched).results t
+  simp only [isFin, beq_iff_eq] at hfin
+  simpa [todo, hfin] using h
+
+/-- **C12.6** `results_schedule_free`: two schedules that both let task `t` finish give it the
+    same sequence of results. -/
+theorem results_schedule_free (cfg : Cfg) (sched₁ sched₂ : List Nat) (t : Nat)
+    (h₁ : isFin (exec cfg sched₁ (init cfg)) t = true)
+    (h₂ : isFin (exec cfg sched₂ (init cfg)) t = true) :
+    seenBy t (exec cfg sched₁ (init cfg)).log = seenBy t (exec cfg sched₂ (init cfg)).log := by
+  rw [results_final cfg sched₁ t h₁, results_final cfg sched₂ t h₂]
+
+/-- non-vacuity: two different schedules, same (non-empty) results for task 1. -/
+example :
+    let cfg : Cfg := ⟨[[0, 1], [1, 0]], fun k => if k = 0 then ⟨1, .ok⟩ else ⟨2, .notFound⟩⟩
+    isFin (exec cfg [0, 1, 0, 1, 0, 1, 0, 1] (init cfg)) 1 = true ∧
+    isFin (exec cfg [1, 1, 1, 1, 1, 0, 0] (init cfg)) 1 = true ∧
+    seenBy 1 (exec cfg [1, 1, 1, 1, 1, 0, 0] (init cfg)).log = [(1, .notFound), (0, .ok)] := by
+  decide
+
+/-! ## 4. "the pending counters end with requested = processed = number of distinct modules" -/
+
+/-- the keys task `t` has begun to look up: those it has an answer for, and the one it is in
+    the middle of -/
+def begun (s : State) (t : Nat) : List Nat :=
+  (seenBy t s.log).map Prod.fst ++
+    (match (s.task t).ctl with
+     | .waiting k => [k]
+     | .inSup k _ => [k]
+     | _ => [])
+
+/-- distinct keys some task has begun to look up -/
+def startedKeys (cfg : Cfg) (s : State) : List Nat :=
+  (allKeys cfg).filter fun k => (List.range cfg.ntasks).any fun t => (begun s t).contains k
+
+theorem lt_ntasks_of_seen {cfg : Cfg} {s : State} (h : InvA cfg s) {t k : Nat} {r : Res}
+    (hm : Event.seen t k r ∈ s.log) : t < cfg.ntasks := by
+  have := seen_mem_expected h hm
+  by_cases ht : t < cfg.ntasks
+  · exact ht
+  · exfalso
+    have : cfg.prog t = [] := by
+      unfold Cfg.prog Cfg.ntasks at *
+      have : cfg.progs.length ≤ t := by omega
+      simp [List.getD_eq_getElem?_getD, this]
+    simp_all
+
+theorem nonEmpty_started {cfg : Cfg} {s : State} (h : InvA cfg s) (k : Nat)
+    (hne : (s.slot k).nonEmpty = true) :
+    ((List.range cfg.ntasks).any fun t => (begun s t).contains k) = true := by
+  rw [List.any_eq_true]
+  cases hs : s.slot k with
+  | empty => simp [hs, Slot.nonEmpty] at hne
+  | held u =>
+    obtain ⟨n, hn⟩ := h.held_insup k u hs
+    have hu : u < cfg.ntasks := by
+      by_cases hu : u < cfg.ntasks
+      · exact hu
+      · have := h.ghost u (by omega); rw [hn] at this; cases this
+    exact ⟨u, List.mem_range.mpr hu, by simp [begun, hn]⟩
+  | done r =>
+    obtain ⟨u, hu⟩ := h.done_seen k r hs
+    refine ⟨u, List.mem_range.mpr (lt_ntasks_of_seen h hu), ?_⟩
+    simp only [begun, List.contains_eq_mem, List.mem_append, List.mem_map, decide_eq_true_eq]
+    exact Or.inl ⟨(k, r), mem_seenBy.mpr hu, rfl⟩
+
+/-- **C12.3a** `counters`, at every moment:
+    `processed ≤ requested ≤ #distinct keys started ≤ #distinct keys of all programs`. -/
+theorem counters (cfg : Cfg) (sched : List Nat) :
+    let s := exec cfg sched (init cfg)
+    s.processed ≤ s.requested ∧ s.requested ≤ (startedKeys cfg s).length ∧
+      (startedKeys cfg s).length ≤ (allKeys cfg).length := by
+  intro s
+  have h : InvA cfg s := invA_reach cfg sched
+  refine ⟨?_, ?_, List.length_filter_le _ _⟩
+  · rw [h.proc_eq, h.req_eq]
+    apply filter_length_mono
+    intro k hk
+    cases hs : s.slot k <;> simp_all [Slot.isDone, Slot.nonEmpty]
+  · rw [h.req_eq]
+    exact filter_length_mono _ _ _ (fun k hk => nonEmpty_started h k hk)
+
+theorem exists_task_of_key {cfg : Cfg} {k : Nat} (hk : k ∈ allKeys cfg) :
+    ∃ t, t < cfg.ntasks ∧ k ∈ cfg.prog t := by
+  unfold allKeys at hk
+  rw [mem_dedup, List.mem_flatten] at hk
+  obtain ⟨l, hl, hkl⟩ := hk
+  obtain ⟨t, ht, rfl⟩ := List.getElem_of_mem hl
+  refine ⟨t, ht, ?_⟩
+  unfold Cfg.prog
+  simp [List.getD_eq_getElem?_getD, ht, hkl]
+
+/-- **C12.3** once every task has finished: `requested = processed = number of distinct keys`. -/
+theorem counters_final (cfg : Cfg) (sched : List Nat)
+    (hfin : allFin cfg (exec cfg sched (init cfg)) = true) :
+    (exec cfg sched (init cfg)).requested = (allKeys cfg).length ∧
+    (exec cfg sched (init cfg)).processed = (allKeys cfg).length := by
+  have h : InvA cfg (exec cfg sched (init cfg)) := invA_reach cfg sched
+  have hdone : ∀ k ∈ allKeys cfg, ∃ r, (exec cfg sched (init cfg)).slot k = .done r := by
+    intro k hk
+    obtain ⟨t, ht, hkt⟩ := exists_task_of_key hk
+    have hft : isFin (exec cfg sched (init cfg)) t = true := by
+      simp only [allFin, List.all_eq_true, List.mem_range] at hfin
+      exact hfin t ht
+    have hres := results_final cfg sched t hft
+    have hm : expected cfg k ∈ seenBy t (exec cfg sched (init cfg)).log := by
+      rw [hres]; exact List.mem_map.mpr ⟨k, hkt, rfl⟩
+    exact h.seen_done t k _ (mem_seenBy.mp hm)
+  constructor
+  · rw [h.req_eq, List.filter_eq_self.mpr]
+    intro k hk
+    obtain ⟨r, hr⟩ := hdone k hk
+    simp [hr, Slot.nonEmpty]
+  · rw [h.proc_eq, List.filter_eq_self.mpr]
+    intro k hk
+    obtain ⟨r, hr⟩ := hdone k hk
+    simp [hr, Slot.isDone]
+
+/-- non-vacuity: three tasks over two distinct keys finish with requested = processed = 2. -/
+example :
+    let cfg : Cfg := ⟨[[0, 1], [1], [0]], fun k => ⟨k + 1, .ok⟩⟩
+    let s := exec cfg [0, 1, 2, 0, 1, 2, 0, 1, 2, 0, 1, 2] (init cfg)
+    allFin cfg s = true ∧ s.requested = 2 ∧ s.processed = 2 ∧ (allKeys cfg).length = 2 := by
+  decide
 
 end MdModel.Once
